@@ -25,6 +25,7 @@ func runC05(c *Ctx) {
 	c.rule("slot-by-identity", "every write to a source slot's value in the update path stores exactly the reported value, at the index whose source compared identical to the reporting source; slot values are written nowhere else after Config", 2)
 	c.rule("serial-plus-one", "the stored serial is the serial loaded in the same function (no store in between) plus the constant 1, and the new-config event carries (serial loaded before the install call) + 1 with the config loaded by the same call as oldConfig", 2)
 	c.rule("atomic-pair", "View and ViewVersion perform exactly one atomic load each (directly or through callees) and every result derives from it; the store publishes a freshly allocated (serial, cfg) pair", 3)
+	c.rule("events-in-order", "every send on the Events channel is executed synchronously by the function that stored that version, after the store, and the update path starts no goroutine (a hand-off goroutine would deliver versions out of order)", 2)
 	c.rule("events-capacity", "the Events channel is created with a constant capacity of at least 1 (the writer's non-blocking send can park one version)", 1)
 
 	k := loadCore(c)
@@ -186,6 +187,54 @@ func runC05(c *Ctx) {
 	if !found {
 		c.bad("events-capacity", "updatesChan", 0, "no make(chan) flows into Dials.updatesChan")
 	}
+	c05EventsInOrder(c, k)
+}
+
+// c05EventsInOrder: versions reach the Events channel in installation order
+// only if every send on it is executed synchronously by the function that
+// stored that version (which runs on the single monitor goroutine): no send
+// from another function or from a closure, and no goroutine is started in the
+// update path.
+func c05EventsInOrder(c *Ctx, k *core) {
+	w := c.W
+	isStoreFn := map[*ssa.Function]bool{}
+	for _, f := range k.storeFns {
+		isStoreFn[f] = true
+	}
+	n := 0
+	for _, f := range w.Funcs {
+		for _, op := range chanOps(f) {
+			if !op.Send || !chanIsField(op.Chan, k.fUpdates) {
+				continue
+			}
+			n++
+			okS := f.Parent() == nil && isStoreFn[origin(f)]
+			// after the store of that version
+			after := false
+			for _, sc := range k.storeCalls {
+				if origin(sc.Parent()) == origin(f) && domI(sc, op.Instr) {
+					after = true
+				}
+			}
+			c.check(okS && after, "events-in-order", relName(f)+"#events-send", op.Instr.Pos(), "the Events send is executed by the storing function itself, after the store",
+				"a send on the Events channel is executed by "+relName(f)+", which is not the storing function of the monitor goroutine (or precedes the store): consumers can receive versions out of order")
+		}
+	}
+	if n == 0 {
+		c.bad("events-in-order", "updatesChan", 0, "no send on Dials.updatesChan found")
+	}
+	for _, f := range k.storeFns {
+		spawned := false
+		for _, i := range allInstrs(f) {
+			if g, ok := i.(*ssa.Go); ok {
+				spawned = true
+				c.bad("events-in-order", relName(f)+"#go", g.Pos(), "the update path starts a goroutine: whatever it delivers (Events, replies) is no longer ordered with the installs")
+			}
+		}
+		if !spawned {
+			c.ok("events-in-order", relName(f)+"#no-go", f.Pos(), "the update path starts no goroutine")
+		}
+	}
 }
 
 // c05SlotsFill: in Config the slots slice is made once and only written at
@@ -283,6 +332,11 @@ func c05Slots(c *Ctx, k *core) {
 	fUpdSrc := w.field("", "valueUpdate", "source")
 	if !c.need(fSlotVal != nil && fSlotSrc != nil && fUpdVal != nil && fUpdSrc != nil, "dials.sourceValue/valueUpdate fields") {
 		return
+	}
+	for _, st := range w.wholeStoresOfNamed("sourceValue") {
+		f := origin(st.Parent())
+		c.check(f == k.config, "slot-by-identity", relName(f)+"#slot-overwrite", st.Pos(), "whole slot written by Config's initial fill",
+			"a whole source slot is overwritten outside Config's initial fill: the stored value of that source is lost, so the incremental stack differs from a fresh one")
 	}
 	// all writes to sourceValue.value
 	n := 0
